@@ -84,6 +84,10 @@ def decoder(ck, prog, config, ca='C20-a', cb='C20-b', cc='C20-c', cd='C20-d'):
                     problems.append(('reads', node.line, 'accepting path reads offsets %s, expected 0..%d' % (offs, n - 1)))
                 if n > maxc:
                     problems.append(('too-long', node.line, 'accepting path reads %d bytes (> MAX_COMP_SIZE)' % n))
+                if st.stop is None or st.stop != len(st.reads) - 1:
+                    problems.append(('unterminated', node.line, 'a %d-byte encoding is accepted on a path that never found '
+                                     'the stop bit (>= 128) in the last byte it read: an encoding that does not end '
+                                     'within %d bytes decodes with success' % (n, maxc)))
                 if cur != (l0 + n, l0 + n):
                     problems.append(('cursor', node.line, 'accepting path read %d bytes but *length moved from %d to %s'
                                      % (n, l0, cur)))
@@ -121,6 +125,7 @@ def decoder(ck, prog, config, ca='C20-a', cb='C20-b', cc='C20-c', cd='C20-d'):
                     ('value', 'accepted n-byte encodings decode to exactly [0, min(128^n - 1, SIZE_MAX)]'),
                     ('reads', 'bytes are read consecutively from the pointer'),
                     ('too-long', 'at most MAX_COMP_SIZE bytes are accepted'),
+                    ('unterminated', 'every accepting path has seen the stop bit in the last byte it read'),
                     ('cursor', '*length advances by exactly the bytes read on success'),
                     ('restore', '*length is restored on every rejecting path'),
                     ('verdict', 'the decoder returns true or false'), ('no-return', 'every path returns')):
